@@ -157,7 +157,8 @@ def regen_dependency(ctx, prop, syms_mod):
     import cxx2lean
     rel = "GilVerif/Gen/%s.lean" % prop
     out = os.path.join(ctx.lean, rel)
-    ok, errs, changed = cxx2lean.generate(syms_mod.NAMESPACE, syms_mod.SYMS, ctx.include, out)
+    ok, errs, changed = cxx2lean.generate(syms_mod.NAMESPACE, syms_mod.SYMS, ctx.include, out,
+                                             syms_mod.extra_header(ctx.include) if hasattr(syms_mod, "extra_header") else "")
     ts = ctx.cov.get("translator_symbols") or {"total": 0, "found": 0}
     ctx.cov["translator_symbols"] = {"total": ts["total"] + len(syms_mod.SYMS), "found": ts["found"] + len(syms_mod.SYMS) - len(errs)}
     if not ok:
